@@ -55,7 +55,7 @@ func main() {
 	// part 2 bounds: preemptions P, timer deviations F, K frontier sub-shards per variant
 	P, F, K, concWall := 1, 1, 2, 40*time.Second
 	if a.Tier == "thorough" {
-		P, F, K, concWall = 2, 1, 8, 8*time.Minute
+		P, F, K, concWall = 2, 1, 8, 12*time.Minute
 	}
 	if v, ok := a.Extra["p"]; ok {
 		fmt.Sscanf(v, "%d", &P)
